@@ -158,7 +158,9 @@ func (p *Program) buildFuncUnit(fn *ssa.Function) (ur *UnitResult) {
 		}
 	}
 	f.run("true", st)
-	for _, r := range f.rets {
+	for ri := range f.rets {
+		r := f.rets[ri]
+		rp := &f.rets[ri]
 		g.covers = append(g.covers, r.reach)
 		if f.contract == nil {
 			continue
@@ -174,6 +176,7 @@ func (p *Program) buildFuncUnit(fn *ssa.Function) (ur *UnitResult) {
 			o := g.oblige("ensures", r.reach, env.evalBool(en.E), f.pos(r.pos), "postcondition of "+fn.Name())
 			g.endGoal()
 			o.Clause = en.Text
+			o.Ret = rp
 		}
 	}
 	return ur
@@ -356,7 +359,7 @@ func (ur *UnitResult) discharge(opt Options) {
 	var batch, single []*OblResult
 	for _, r := range pending {
 		switch r.Kind {
-		case "ensures", "lemma", "invariant-entry", "invariant-preserved", "precond":
+		case "ensures", "lemma", "invariant-entry", "invariant-preserved", "precond", "loop-exit":
 			single = append(single, r)
 		default:
 			batch = append(batch, r)
